@@ -9,7 +9,7 @@ ENV = dict(os.environ, GOFLAGS="-mod=mod", GOPROXY="off", GOSUMDB="off", GOTOOLC
 PKGDIR = {"bitmap_test": "plugins/allocators/bitmap", "bitmap": "plugins/allocators/bitmap", "prefix_test": "plugins/prefix", "prefix": "plugins/prefix",
           "rangeplugin_test": "plugins/range", "rangeplugin": "plugins/range", "file_test": "plugins/file", "file": "plugins/file",
           "allocators_test": "plugins/allocators", "allocators": "plugins/allocators", "server_test": "server", "server": "server",
-          "config_test": "config", "config": "config", "plugins_test": "plugins", "serverid_test": "plugins/serverid", "serverid": "plugins/serverid"}
+          "config_test": "config", "config": "config", "plugins_test": "plugins", "plugins": "plugins", "serverid_test": "plugins/serverid", "serverid": "plugins/serverid"}
 
 
 def sh(cmd, cwd, timeout=900):
@@ -43,7 +43,7 @@ def main():
             placed.append(pdir)
             meta.setdefault("demo_package_dirs", []).append(pdir)
         pk = " ".join("./" + p for p in sorted(set(placed)))
-        rc0, out0 = sh("go test -vet=off -count=1 %s" % pk, wt) if placed else (1, "no demo")
+        rc0, out0 = sh("go test -tags verif -vet=off -count=1 %s" % pk, wt) if placed else (1, "no demo")
         meta["demo_passes_without_change"] = rc0 == 0
         rca, outa = sh("git apply %s" % patch, wt)
         rcb, outb = sh("go build ./... && go build -tags verif ./...", wt)
@@ -57,7 +57,7 @@ def main():
         for p in placed:
             for f in glob.glob(os.path.join(wt, p, "zz_seed_*.off")):
                 os.rename(f, f[:-4])
-        rc1, out1 = sh("go test -vet=off -count=1 %s" % pk, wt) if placed else (0, "no demo")
+        rc1, out1 = sh("go test -tags verif -vet=off -count=1 %s" % pk, wt) if placed else (0, "no demo")
         meta["demo_fails_with_change"] = rc1 != 0
         meta["demo_output_with_change"] = out1[-1500:]
         meta["confirmed"] = bool(meta["demo_passes_without_change"] and meta["compiles_with_change"] and meta["existing_suite_passes_with_change"] and meta["demo_fails_with_change"])
